@@ -145,7 +145,10 @@ func runC06(c *run.Ctx) {
 				return
 			}
 			if fragseg {
-				if d2 := Compare(exp, out, CompareOpts{StripFragSeg: true}); d2 == "" && fragSegsAtSpreads(ec.DC.Doc, out) {
+				flm := fl
+				flm.SpreadMarks = true
+				if d2 := Compare(exp, out, CompareOpts{StripFragSeg: true}); d2 == "" && fragSegsAtSpreads(ec.DC.Doc, out) &&
+					fragSegsNameTheirSpread(ref.Execute(ec.S, ec.DC.Doc, rq.OpName, rq.Vars, g, plan, flm), out) {
 					c.Known("K-C06-fragseg", map[string]interface{}{"document": ec.Text, "fault": fmt.Sprint(plan), "observed_paths": out.Describe()["error_paths"]})
 					return
 				}
@@ -444,6 +447,45 @@ func fragSegsAtSpreads(d *model.Doc, out *Outcome) bool {
 					return false
 				}
 			}
+		}
+	}
+	return true
+}
+
+// fragSegsNameTheirSpread is the third part of the predicate: the segments of an error's path name, in order, the spreads
+// the failing position was reached through (the reference executed with SpreadMarks says which), not some other spread of
+// the same fragment. A position is taken as named when the line is the spread's (its dots, its name, or the line after:
+// ggql reports positions after its look-ahead byte, K-C07-lookahead).
+func fragSegsNameTheirSpread(marked *ref.Result, out *Outcome) bool {
+	used := make([]bool, len(marked.Errs))
+	for _, p := range out.ErrPaths {
+		found := false
+		for i, e := range marked.Errs {
+			if used[i] || len(e.Path) != len(p) {
+				continue
+			}
+			same := true
+			for j := range p {
+				if sp, isSp := e.Path[j].(*model.Spread); isSp {
+					seg, _ := p[j].(string)
+					var l, col int
+					if n, _ := fmt.Sscanf(seg, "fragment at %d:%d", &l, &col); n != 2 || (l != sp.Line && l != sp.NameLine && l != sp.Line+1) {
+						same = false
+					}
+				} else if pathKey([]interface{}{e.Path[j]}) != pathKey([]interface{}{p[j]}) {
+					same = false
+				}
+				if !same {
+					break
+				}
+			}
+			if same {
+				used[i], found = true, true
+				break
+			}
+		}
+		if !found {
+			return false
 		}
 	}
 	return true
